@@ -17,10 +17,15 @@ ERROR awkward_slicearray_ravel(
     }
   }
   else {
+    // the flat length of one entry along the first dimension
+    int64_t sublength = 1;
+    for (int64_t k = 1;  k < ndim;  k++) {
+      sublength *= shape[k];
+    }
     for (T i = 0;  i < shape[0];  i++) {
       ERROR err =
         awkward_slicearray_ravel<T>(
-          &toptr[i*shape[1]],
+          &toptr[i*sublength],
           &fromptr[i*strides[0]],
           ndim - 1,
           &shape[1],
